@@ -287,7 +287,7 @@ def build_source_lit(t):
     d = A.Decls()
     T = d.vy(t)
     tl = ("darr", t, 2)
-    nL = A.size_bound(("tuple", (tl,)))
+    nL = A.size_bound(("tuple", (("tuple", (t, ("uint", 8))),)))
     k = min(max((A.size_bound(t) * 2 + 400) // 32, 24), 160)
     P = prelude(k)
     src = d.text() + f"""
@@ -319,7 +319,7 @@ def lit_tuple(x: {T}) -> (uint8, {T}):
 
 @external
 def lit_enc(x: {T}) -> Bytes[{nL}]:
-{P}    return abi_encode([x, x])
+{P}    return abi_encode(W(a=x, b=7))
 
 @external
 def lit_log(x: {T}):
@@ -332,10 +332,10 @@ def coq_pack_expr_lit(t, v, info):
     ct, cv = A.coq_ty(t), A.coq_val(t, v)
     return (f"let t := {ct} in let v := {cv} in "
             f"let eL := enc (TTuple [TDArr t 2]) (VList [VList [v; v]]) in "
-            f"pack [enc (TTuple [t]) (VList [v]); eL; enc (TTuple [TDArr t 2]) (VList [VList [v]]); "
-            f"enc (TTuple [TTuple [t; TUInt 8]]) (VList [VList [v; VInt 7]]); "
+            f"let eW := enc (TTuple [TTuple [t; TUInt 8]]) (VList [VList [v; VInt 7]]) in "
+            f"pack [enc (TTuple [t]) (VList [v]); eL; enc (TTuple [TDArr t 2]) (VList [VList [v]]); eW; "
             f"enc (TTuple [TUInt 8; t]) (VList [VInt 7; v]); "
-            f"enc (TTuple [TBytes {info['nL']}]) (VList [VBytes eL])]")
+            f"enc (TTuple [TBytes {info['nL']}]) (VList [VBytes eW])]")
 
 
 def run_lit_config(job):
